@@ -140,6 +140,11 @@ def kinds(case: Case, run: Run, m: Any, own: bool = True) -> Set[str]:
         elif t == 4:
             out.add("Axfer")
         elif t == 6:
+            ba, app = value_of(run, m, "ApplicationID")
+            if ba and app == 0:
+                # an application *creation*: whether it can carry UpdateApplication /
+                # DeleteApplication is not something the property settles - nothing is demanded
+                continue
             b, oc = value_of(run, m, "OnCompletion")
             if not b:
                 out |= {"ApplUpdateApplication", "ApplDeleteApplication"}
